@@ -9,7 +9,6 @@ import (
 	"crypto/ed25519"
 	"crypto/sha256"
 	"fmt"
-	"runtime"
 	"strconv"
 	"sync"
 	"sync/atomic"
@@ -127,21 +126,43 @@ type c07Cast struct {
 	payload []byte
 }
 
+// c07Event is what the hooks of the scripted communication see: kind "sub" | "unsub" | "cast".
+type c07Event struct {
+	kind    string
+	id      int // subscription id (sub / unsub)
+	session string
+	typ     comm.MessageType
+}
+
 // c07Comm records Subscribe/UnSubscribe/Broadcast/CloseSession and lets the scenario hand messages to the
 // current subscribers one at a time (unbuffered hand-over: a completed delivery means the receiving loop took it).
+// Scenarios are sequenced on what happens HERE (a subscription registered, a broadcast made): `waitUntil` sleeps on a
+// notification channel that every state change renews, and `hook` runs synchronously inside the calling goroutine of the
+// code under test, so that "when the coordinator subscribes to X, do Y first" needs no clock at all.
 type c07Comm struct {
 	mu     sync.Mutex
+	notify chan struct{} // closed and replaced on every state change
+	hook   func(ev c07Event)
 	next   int
 	subs   []*c07Sub
+	hist   []c07Event // every subscription ever made (conditions on it are monotone: they cannot be missed by a late observer)
 	casts  []c07Cast
 	closed []string
 	nSub   int
 	nUnsub int
 	mark   int // subscriptions with id ≤ mark belong to an earlier attempt and are not delivered to
+	// markFirst: the first subscription to this message type sets the mark to its own id, atomically with being recorded
+	markFirst *comm.MessageType
 }
 
 func c07NewComm() *c07Comm {
-	return &c07Comm{}
+	return &c07Comm{notify: make(chan struct{})}
+}
+
+// changed must be called with mu held.
+func (c *c07Comm) changed() {
+	close(c.notify)
+	c.notify = make(chan struct{})
 }
 
 func (c *c07Comm) CloseSession(sessionID string) {
@@ -153,56 +174,87 @@ func (c *c07Comm) CloseSession(sessionID string) {
 func (c *c07Comm) Broadcast(peers peer.IDSlice, msg []byte, msgType comm.MessageType, sessionID string) error {
 	c.mu.Lock()
 	c.casts = append(c.casts, c07Cast{msgType, sessionID, append([]peer.ID{}, peers...), append([]byte{}, msg...)})
+	c.changed()
+	h := c.hook
 	c.mu.Unlock()
+	if h != nil {
+		h(c07Event{"cast", 0, sessionID, msgType})
+	}
 	return nil
 }
 
 func (c *c07Comm) Subscribe(sessionID string, msgType comm.MessageType, channel chan *comm.WrappedMessage) comm.SubscriptionID {
 	c.mu.Lock()
-	defer c.mu.Unlock()
 	c.next++
+	id := c.next
 	c.nSub++
-	c.subs = append(c.subs, &c07Sub{c.next, sessionID, msgType, channel})
-	return comm.SubscriptionID(fmt.Sprintf("verif-%d", c.next))
+	c.subs = append(c.subs, &c07Sub{id, sessionID, msgType, channel})
+	c.hist = append(c.hist, c07Event{"sub", id, sessionID, msgType})
+	if c.markFirst != nil && *c.markFirst == msgType {
+		c.mark = id
+		c.markFirst = nil
+	}
+	c.changed()
+	h := c.hook
+	c.mu.Unlock()
+	if h != nil {
+		h(c07Event{"sub", id, sessionID, msgType})
+	}
+	return comm.SubscriptionID(fmt.Sprintf("verif-%d", id))
 }
 
 func (c *c07Comm) UnSubscribe(subID comm.SubscriptionID) {
 	c.mu.Lock()
-	defer c.mu.Unlock()
 	c.nUnsub++
+	var ev *c07Event
 	for i, s := range c.subs {
 		if fmt.Sprintf("verif-%d", s.id) == string(subID) {
+			ev = &c07Event{"unsub", s.id, s.session, s.typ}
 			c.subs = append(c.subs[:i], c.subs[i+1:]...)
 			break
 		}
 	}
+	c.changed()
+	h := c.hook
+	c.mu.Unlock()
+	if h != nil && ev != nil {
+		h(*ev)
+	}
 }
 
-// waitUntil polls pred (under the lock) until it holds ("ok"), the scenario's main call returned ("done"),
-// or d elapsed ("timeout").
+// waitUntil sleeps until pred (evaluated under the lock after every state change of the communication) holds ("ok"),
+// the scenario's main call returned ("done"), or the bound d elapsed ("timeout", recorded as an anomaly: the op is then
+// re-run with a longer bound, see c07Escalating).
 func (c *c07Comm) waitUntil(d time.Duration, done <-chan struct{}, pred func() bool) string {
-	deadline := time.Now().Add(d)
-	for i := 0; ; i++ {
+	timer := time.NewTimer(d)
+	defer timer.Stop()
+	for {
 		c.mu.Lock()
 		ok := pred()
+		ch := c.notify
 		c.mu.Unlock()
 		if ok {
 			return "ok"
 		}
 		select {
+		case <-ch:
 		case <-done:
 			return "done"
-		default:
-		}
-		if time.Now().After(deadline) {
+		case <-timer.C:
+			c07Anomaly()
 			return "timeout"
 		}
-		if i < 200 {
-			runtime.Gosched()
-		} else {
-			time.Sleep(100 * time.Microsecond)
+	}
+}
+
+// everSub: has a subscription to (session, type) been made since the mark (whether or not it still exists)? mu held.
+func (c *c07Comm) everSub(session string, typ comm.MessageType) bool {
+	for _, h := range c.hist {
+		if h.id > c.mark && h.session == session && h.typ == typ {
+			return true
 		}
 	}
+	return false
 }
 
 func (c *c07Comm) subscriber(session string, typ comm.MessageType) *c07Sub {
@@ -214,41 +266,73 @@ func (c *c07Comm) subscriber(session string, typ comm.MessageType) *c07Sub {
 	return nil
 }
 
-// c07Patience bounds every wait of a scenario for something the code under test is expected to do promptly.
-// It is only ever exhausted when the code does NOT do it (then the output says so); it is no pacing device.
-// Once a few waits have been exhausted the run is already certain to end in a reported disagreement, so the remaining
-// scenarios stop being patient (a broken tree must not turn the check into hours of waiting).
-const c07PatienceMax = 6 * time.Second
+// ---------------------------------------------------------------- bounds and escalation
+//
+// No scenario step is paced by the clock: every step waits for an observable event. The waits are nevertheless bounded,
+// because a broken tree may never produce the event. A bound that is exhausted ("anomaly") says "not within d", never
+// "never": the whole case is then run again from scratch with a 5× and then a 25× longer bound, and only an anomaly that
+// persists at the longest bound is printed (prefixed `hang;`, which also counts towards the driver's cap on hanging ops).
+// The same applies to the one premise that involves a real timer inside the code under test (the bully election must
+// still be running when the claimant's announcement has been processed): it is CHECKED from time stamps after the
+// fact, and a run in which it did not hold is discarded and repeated with a 5× / 25× longer election.
 
-var c07Anomalies int32
+var c07Levels = []time.Duration{400 * time.Millisecond, 2 * time.Second, 10 * time.Second}
+
+var (
+	c07Level     int32 // index into c07Levels of the attempt in progress
+	c07Anomalies int32 // bounds exhausted / premises missed during the attempt in progress
+)
 
 func c07Patience() time.Duration {
-	if atomic.LoadInt32(&c07Anomalies) >= 3 {
-		return 40 * time.Millisecond
+	if atomic.LoadInt32(&c07Anomalies) > 0 {
+		return time.Millisecond // the attempt is discarded anyway: finish it quickly
 	}
-	return c07PatienceMax
+	return c07Levels[atomic.LoadInt32(&c07Level)]
 }
 func c07Anomaly() { atomic.AddInt32(&c07Anomalies, 1) }
 
+// c07Scale is the factor by which real timers inside the code under test are stretched on the current attempt.
+func c07Scale() time.Duration {
+	return []time.Duration{1, 5, 25}[atomic.LoadInt32(&c07Level)]
+}
+
+// c07Escalating wraps an op: run, and if any bound was exhausted run again with the next level.
+func c07Escalating(f Op) Op {
+	return func(a []string) string {
+		res := ""
+		for lvl := range c07Levels {
+			atomic.StoreInt32(&c07Level, int32(lvl))
+			atomic.StoreInt32(&c07Anomalies, 0)
+			res = f(append([]string{}, a...))
+			if atomic.LoadInt32(&c07Anomalies) == 0 {
+				return res
+			}
+		}
+		atomic.StoreInt32(&c07Level, 0)
+		return "hang;" + res
+	}
+}
+
 // deliver hands one message to the (first) current subscriber of (session, type). Result:
-// "ok" taken by the receiving loop, "nosub" nobody subscribed within the patience, "stuck" subscribed but not
-// taken, "done" the scenario's main call returned first.
+// "ok" taken by the receiving loop, "nosub" nobody subscribed within the bound, "stuck" subscribed but not
+// taken, "done" the scenario's main call returned first (or `done` was closed for another reason).
 func (c *c07Comm) deliver(session string, typ comm.MessageType, from peer.ID, payload []byte, done <-chan struct{}) string {
 	var sub *c07Sub
 	switch c.waitUntil(c07Patience(), done, func() bool { sub = c.subscriber(session, typ); return sub != nil }) {
 	case "done":
 		return "done"
 	case "timeout":
-		c07Anomaly()
 		return "nosub"
 	}
 	msg := &comm.WrappedMessage{MessageType: typ, SessionID: session, Payload: payload, From: from}
+	timer := time.NewTimer(c07Patience())
+	defer timer.Stop()
 	select {
 	case sub.ch <- msg:
 		return "ok"
 	case <-done:
 		return "done"
-	case <-time.After(c07Patience()):
+	case <-timer.C:
 		c07Anomaly()
 		return "stuck"
 	}
